@@ -558,7 +558,8 @@ func (s *Store) gcIndex(ctx context.Context) error {
 		// check if the referrers manifest can traverse to the existing graph
 		subject := &desc
 		for {
-			subject, err := manifestutil.Subject(ctx, s.storage, *subject)
+			var err error
+			subject, err = manifestutil.Subject(ctx, s.storage, *subject)
 			if err != nil {
 				return err
 			}
